@@ -186,6 +186,8 @@ def build():
     filler = "lorem ipsum dolor " * 35
     a(("tables-three-levels", "{|\n|\n{|\n| " + filler + "\n{|\n| innermost || cell\n|}\n|}\n|\n{|\n| second || table\n|}\n|}\n"))
     a(("tables-three-levels-rows", "{|\n|\n{|\n| " + filler + "\n|-\n|\n{|\n| innermost\n|}\n|}\n|-\n|\n{|\n| second\n|}\n|}\n"))
+    # a definition list emptied by an earlier pass (its only entry was a 'See also' heading), followed by an entry
+    a(("dl-emptied-then-dd", "text\n<dl><h2>''See also''</h2></dl>\n: foo\n"))
     return T
 
 
